@@ -50,6 +50,10 @@ func DescribeEvent(p *load.Program, e *pathx.Event) string {
 			rs = append(rs, valName(r))
 		}
 		return fmt.Sprintf("%sreturn %s @%s", ind, strings.Join(rs, ", "), pos)
+	case pathx.KMapUpdate:
+		return fmt.Sprintf("%smapupdate %s[%s] @%s", ind, chanName(e.Addr), valName(e.Chan), pos)
+	case pathx.KLookup:
+		return fmt.Sprintf("%slookup %s[%s] @%s", ind, chanName(e.Addr), valName(e.Chan), pos)
 	case pathx.KLoopBack:
 		return fmt.Sprintf("%sloopback → block %d", ind, e.Target.Index)
 	}
